@@ -337,6 +337,42 @@ here: `setXattrIndexCur_eq`) -/
 def setXattrIndexCur (stale x : Nat) (i : Inode) : Inode :=
   putXattr x (if x ≠ NONE32 then makeExtendedCur stale i else i)
 
+/-! ### `sqfs_inode_set_file_size`, `sqfs_inode_set_file_block_start` (the block processor's two stores) -/
+
+/-- the plain store into `data.file_ext.file_size` / `data.file.file_size` -/
+def putFileSize (size : Nat) : Inode → Inode
+  | .fileExt b st _ sp nl fi fo x blks => .fileExt b st size sp nl fi fo x blks
+  | .file b st fi fo _ blks => .file b st fi fo size blks
+  | i => i
+
+/-- the plain store into `blocks_start` -/
+def putBlockStart (loc : Nat) : Inode → Inode
+  | .fileExt b _ sz sp nl fi fo x blks => .fileExt b loc sz sp nl fi fo x blks
+  | .file b _ fi fo sz blks => .file b loc fi fo sz blks
+  | i => i
+
+/-- `sqfs_inode_set_file_size` (inode.c:241-260), `size` a `sqfs_u64`; `none` = `SQFS_ERROR_NOT_FILE`.  An extended
+inode is demoted when the new size is **below** `0xFFFFFFFF` (and `make_basic` finds everything else fitting), a basic
+one promoted when it is **above**. -/
+def setFileSize (size : Nat) : Inode → Option Inode
+  | .fileExt b st sz sp nl fi fo x blks =>
+    let i := putFileSize size (.fileExt b st sz sp nl fi fo x blks)                           -- :244
+    some (if size < 0xFFFFFFFF then makeBasic i else i)                                       -- :246-247
+  | .file b st fi fo sz blks =>
+    if size > 0xFFFFFFFF then some (putFileSize size (makeExtended (.file b st fi fo sz blks)))   -- :249-251
+    else some (putFileSize size (.file b st fi fo sz blks))                                   -- :253
+  | _ => none                                                                                 -- :256
+
+/-- `sqfs_inode_set_file_block_start` (inode.c:279-298), same shape -/
+def setFileBlockStart (loc : Nat) : Inode → Option Inode
+  | .fileExt b st sz sp nl fi fo x blks =>
+    let i := putBlockStart loc (.fileExt b st sz sp nl fi fo x blks)                          -- :282
+    some (if loc < 0xFFFFFFFF then makeBasic i else i)                                        -- :284-285
+  | .file b st fi fo sz blks =>
+    if loc > 0xFFFFFFFF then some (putBlockStart loc (makeExtended (.file b st fi fo sz blks)))   -- :287-289
+    else some (putBlockStart loc (.file b st fi fo sz blks))                                  -- :291
+  | _ => none                                                                                 -- :294
+
 /-! ### `serialize_tree_node` -/
 
 /-- what `serialize_tree_node` takes from the `tree_node_t` -/
